@@ -384,8 +384,57 @@ func runC15(r *Run, stratum string) *Violation {
 	s.ttl = int(cc.LeaseTimeout / time.Second) // cmd/syncer.go run()
 	s.ttlNs = int64(s.ttl) * int64(time.Second)
 	s.renew = cc.LeaseRenewInterval
-	shard := []string{"10.1.1.1:6379", "10.1.1.2:6380"}[g.Choose("shard", 2)]
-	s.key = fmt.Sprintf("%s/%s/input-election/%s/", config.NamespacePrefixKey, cc.GroupName, shard) // cmd/syncer.go runCluster()
+	// which lease an instance contends for is decided by the real cmd.runCluster from the instance's per-shard syncer
+	// configuration (asked through an injected accessor): all instances of the group serve the same source shard (one
+	// master, two replicas) but, as input.syncFrom allows, need not read from the same node of it
+	shardMaster := []string{"10.1.1.1:6379", "10.1.1.2:6380"}[g.Choose("shard", 2)]
+	keyOf := make([]string, n)
+	readsFrom := make([]string, n)
+	oldPeer := gc.Server.ListenPeer
+	defer func() { gc.Server.ListenPeer = oldPeer }()
+	for i := 0; i < n; i++ {
+		in := config.RedisConfig{Addresses: []string{shardMaster}, Type: config.RedisTypeCluster, ClusterOptions: &config.RedisClusterOptions{}}
+		health := func(label string) string {
+			if g.Choose(label, 4) == 0 {
+				return "offline"
+			}
+			return "online"
+		}
+		slaves := []config.RedisNode{
+			{Address: "10.1.1.8:6379", Role: config.RedisRoleSlave, Health: health("replica1health")},
+			{Address: "10.1.1.9:6379", Role: config.RedisRoleSlave, Health: health("replica2health")},
+		}
+		if g.Choose("replicaorder", 2) == 1 {
+			slaves[0], slaves[1] = slaves[1], slaves[0]
+		}
+		in.SetClusterShards([]*config.RedisClusterShard{{
+			Slots:  config.RedisSlots{Ranges: []config.RedisSlotRange{{Left: 0, Right: 16383}}},
+			Master: config.RedisNode{Address: shardMaster, Role: config.RedisRoleMaster, Health: "online"},
+			Slaves: slaves,
+		}})
+		strategy := []config.SelNodeStrategy{config.SelNodeStrategyPreferSlave, config.SelNodeStrategyMaster, config.SelNodeStrategySlave}[g.Choose("syncfrom", 3)]
+		nodes := in.SelNodes(true, strategy)
+		if len(nodes) != 1 {
+			// no node of the shard qualifies under this strategy: this instance reads from the master
+			nodes = in.SelNodes(true, config.SelNodeStrategyMaster)
+		}
+		id := fmt.Sprintf("10.0.1.%d:18001", i+1)
+		gc.Server.ListenPeer = id
+		keys, ids := cmd.VerifElectionKeys([]syncer.SyncerConfig{{Id: 0, Input: nodes[0]}})
+		if len(keys) != 1 || ids[0] != id {
+			Inconc("runCluster created %d elections for one shard (ids %v)", len(keys), ids)
+		}
+		keyOf[i], readsFrom[i] = keys[0], nodes[0].Address()
+	}
+	s.key = keyOf[0]
+	for i := 1; i < n; i++ {
+		if keyOf[i] != keyOf[0] {
+			// two leases for one source shard: each is free for its own contender, so both instances are granted
+			// leadership by their first campaign and keep it for as long as they renew
+			return &Violation{Property: "C15", Rule: "C15.lease_key", Sig: "instances serving the same source shard contend for different leases",
+				Msg: fmt.Sprintf("source shard of master %s: instance 10.0.1.1:18001 (reads from %s) contends for lease %q, instance 10.0.1.%d:18001 (reads from %s) for lease %q - both leases are free for their only contender, both instances are told they are leader at the same time", shardMaster, readsFrom[0], keyOf[0], i+1, readsFrom[i], keyOf[i])}
+		}
+	}
 	s.faults = stratum == "free" || stratum == "expiry" || stratum == "renewloop_faults"
 	looping := strings.HasPrefix(stratum, "renewloop")
 	maxCalls := 8 + g.Choose("maxcalls", 53)
